@@ -55,7 +55,7 @@ PROPS = {
                 plans_quick=[("dec", "uni")],
                 plans_thorough=[("dy", "ascii"), ("dec", "uni"), ("c7", "quote")],
                 rand_quick=8000, rand_thorough=150000, extra_clauses=["times_off_grid"]),
-    "C05": dict(ops=ALL_UNARY + ALL_BINARY, kinds=["I", "P"],
+    "C05": dict(ops=ALL_UNARY + ALL_BINARY + ["construct"], kinds=["I", "P"],
                 quick=dict(N=3, K=2, Depth=1), thorough=dict(N=4, K=2, Depth=1),
                 plans_quick=[("dy", "ascii")],
                 plans_thorough=[("dy", "ascii"), ("dec", "uni")],
@@ -206,6 +206,19 @@ def rand_vectors(prop, cfg, n, seed):
             else:
                 x = {"s": 1, "e": 2, "l": "zz"} if kind == "I" else {"t": 1, "l": "zz"}
             args = {"x": x}
+        elif op == "construct":
+            raw = list(pre["ents"])
+            rng.shuffle(raw)
+            r = rng.random()
+            if kind == "I" and raw and r < 0.25:
+                x = dict(rng.choice(raw))
+                x["e"] = x["e"] + rng.randint(0, 300)
+                x["s"] = max(0, x["s"] - rng.randint(0, 300))
+                raw.append(x)                                   # overlapping (or touching) duplicate
+            elif kind == "I" and r < 0.35:
+                t0 = rng.randint(0, HI)
+                raw.append({"s": t0, "e": t0 - rng.randint(0, 3), "l": "x"})      # degenerate / reversed
+            args = {"kind": kind, "raw": raw, "lo": rng.choice([pre["lo"], 0]), "hi": rng.choice([pre["hi"], HI + 7]), "pad": rng.random() < 0.5}
         elif op in ALL_BINARY:
             k2 = kind
             if op == "appendTier" and rng.random() < 0.1:
@@ -331,6 +344,14 @@ def rand_vectors_small(cfg, rng, pre, HI):
         else:
             x = {"s": 1, "e": 2, "l": "zz"} if kind == "I" else {"t": 1, "l": "zz"}
         args = {"x": x}
+    elif op == "construct":
+        raw = list(pre["ents"])
+        rng.shuffle(raw)
+        if kind == "I" and raw and rng.random() < 0.3:
+            x = dict(rng.choice(raw))
+            x["e"] = x["e"] + rng.randint(0, 3)
+            raw.append(x)
+        args = {"kind": kind, "raw": raw, "lo": pre["lo"], "hi": pre["hi"], "pad": rng.random() < 0.5}
     elif op in ALL_BINARY:
         k2 = kind
         if op == "dejitter":
